@@ -300,7 +300,7 @@ def conformance(prop, tier, traces, work):
     return {"strict_conformance": {"runs_accepted_by_ParRun": len(conf), "runs_rejected": len(rej_u),
                                    "first_rejections": list(rej_u.values())[:5], "files_consumed": consumed,
                                    "files": len(outs), "wall_s": round(time.time() - t0, 2),
-                                   "note": "applies to scheduled (linearised) runs of programs without eager sites; a rejection is spec-maintenance information, never a verdict"}}
+                                   "note": "applies to scheduled (linearised) runs, including chains with eager (materialising) sites, which are followed run by run; a rejection is spec-maintenance information, never a verdict"}}
 
 
 # ------------------------------------------------------------------ showing that the binding binds
